@@ -59,6 +59,8 @@ var clientAuthNames = map[int64]string{0: "NoClientCert", 1: "RequestClientCert"
 
 func c19(c *Ctx) (*report.Result, error) {
 	res := newResult("C19")
+	res.RuleDoc["O19.12"] = "expired certificates are refused: no tls.Config of the module gets its own clock (no store into its Time field) - crypto/tls judges NotBefore / NotAfter against that hook, so a leeway there admits peers whose certificate has expired"
+	checkNoTLSClockOverride(c, res, "O19.12")
 	res.RuleDoc["O19.11"] = "a connection handed out by a mux connection provider went through the TLS wrapper: in both NewConnection implementations (closures included) no return that can report success is reachable from a dial / accept without the call of the provider's tlsWrapper - a retry path that returns the raw TCP connection runs yamux in plaintext with a peer that showed no certificate"
 	checkConnWrappedOnEveryPath(c, res, "O19.11")
 	res.RuleDoc["O19.1"] = "server config: unless SkipCAVerification is set, the returned tls.Config has ClientAuth = RequireAndVerifyClientCert and ClientCAs = the pool of fetchCACert (its error is returned); nothing weakens it afterwards; GetConfigForClient never substitutes another config"
